@@ -12,6 +12,7 @@
   `∀ acc ∈ accesses …, acc.ok = true`.  Hypotheses are those of `lower_X_correct`.
 -/
 import PtProofs.AccessLemmas
+import PtProofs.PadLemmas
 import PtProofs.C02
 namespace Pt
 
@@ -205,6 +206,29 @@ theorem lower_reshape_accesses_inbounds_F (old new : Shape) (a : Arr Val) (i : I
   obtain ⟨vs, h⟩ := lower_reshape_accesses .F old new a i e ha hprod hi hg
   exact all_ok_of_single h
 
+/-! ## pad (constant mode) -/
+
+/-- `pt.pad`: evaluating the padded expression at ANY index of the padded shape
+    (`idx_d < n_d + before_d + after_d`), for any rank / axis lengths / widths,
+    with the upper guards holding `n_d + before_d` (literal, or a variable bound
+    to that number for a symbolic axis), touches `in_0` at most once, and then at
+    `idx - before`, which is within `in_0` componentwise: in the pad area the
+    guards keep the subscript from being evaluated at all. -/
+theorem pad_accesses_inbounds (a : Arr Val) (widths : List (Nat × Nat))
+    (cvals : List (SExpr × SExpr)) (bounds : List SExpr) (binds : List (String × Arr Val))
+    (i : Idx)
+    (hw : widths.length = a.shape.length) (hc : cvals.length = a.shape.length)
+    (hb : bounds.length = a.shape.length)
+    (hin0 : (idxEnv i binds).lookupArr "in_0" = some a)
+    (hbounds : bounds.map (eval (idxEnv i binds))
+      = (a.shape.zip widths).map fun p => Val.i ((p.1 + p.2.1 : Nat) : Int))
+    (hcv : ∀ c ∈ cvals, hasSub c.1 = false ∧ hasSub c.2 = false)
+    (hbn : ∀ b ∈ bounds, hasSub b = false)
+    (hi : inB ((a.shape.zip widths).map fun p => p.1 + p.2.1 + p.2.2) i = true) :
+    ∀ acc ∈ accesses (idxEnv i binds) (Lower.padExpr widths cvals bounds),
+      acc.ok = true ∧ acc.affine = true ∧ acc.name = "in_0" :=
+  padExpr_accesses ⟨hw, hc, hb, hin0, boundsOK_of_map hw hc hb hbounds, hi⟩ hcv hbn
+
 /-! ## non-vacuity: the hypotheses are those of C02 (instances there); here the
     access lists of concrete instances, computed -/
 
@@ -218,6 +242,19 @@ example : (accesses (idxEnv [1, 4] (Lower.inBinds [exArr, exArr3])) (Lower.conca
 example : ((Lower.reshape .C [2, 3] [3, 2]).map fun e =>
     (accesses (idxEnv [2, 1] [("_in0", exArr)]) e).map (fun acc => (acc.name, acc.idx, acc.ok)))
       = some [("_in0", [.i 1, .i 2], true)] := by decide
+-- pad: inside the operand one in-bounds access; in the pad area (here a corner) none
+example : (accesses (idxEnv [2, 3] [("in_0", exArr)])
+      (Lower.padExpr [(1, 2), (2, 1)] [(.int 10, .int 20), (.int 30, .int 40)] [.int 3, .int 5])).map
+    (fun acc => (acc.name, acc.idx, acc.affine, acc.ok)) = [("in_0", [.i 1, .i 1], true, true)] := by
+  decide
+example : accesses (idxEnv [4, 5] [("in_0", exArr)])
+      (Lower.padExpr [(1, 2), (2, 1)] [(.int 10, .int 20), (.int 30, .int 40)] [.int 3, .int 5])
+    = [] := by decide
+/-- the mutant "`after` instead of `before` in the upper guard" (bound 2+2 instead of 2+1 on
+    axis 0) is NOT covered by the theorem (its `hbounds` fails) and does read out of bounds -/
+example : (accesses (idxEnv [3, 3] [("in_0", exArr)])
+      (Lower.padExpr [(1, 2), (2, 1)] [(.int 10, .int 20), (.int 30, .int 40)] [.int 4, .int 5])).map
+    (·.ok) = [false] := by decide
 /-- the `ok` flag does detect an out-of-bounds access: the same roll expression
     evaluated at an index outside the output shape -/
 example : (accesses (idxEnv [5, 0] [("_in0", exArr)]) (Lower.roll (-4) 1 2 3)).map (·.ok)
